@@ -653,6 +653,7 @@ func (e *Exec) assertProp(id string, cond *Term) {
 	case Sat:
 		v := &Violation{Harness: e.res.Name, AssertID: id, Kind: "assert", Detail: e.tb.Show(cond) + e.pathNotes(), Path: e.res.Paths}
 		v.Model = e.extractModel()
+		e.addWrittenGlobals(v.Model)
 		e.solver.Pop()
 		e.res.Violations = append(e.res.Violations, v)
 		panic(&pathEnd{kind: "violation", detail: id})
@@ -671,7 +672,10 @@ func (e *Exec) violation(id string, cond *Term) {
 	r := e.solver.Check()
 	if r == Sat {
 		v.Model = e.extractModel()
+	} else {
+		v.Model = map[string]string{}
 	}
+	e.addWrittenGlobals(v.Model)
 	e.res.Violations = append(e.res.Violations, v)
 	panic(&pathEnd{kind: "violation", detail: id})
 }
@@ -1263,4 +1267,30 @@ func (e *Exec) allFuncs() map[*ssa.Function]bool {
 		e.funcsCache = ssautilAllFunctions(e.Prog)
 	}
 	return e.funcsCache
+}
+
+// addWrittenGlobals names the package-level variables of the harness's own package that
+// the tracked operations wrote to, so the native replay can watch exactly those.
+func (e *Exec) addWrittenGlobals(m map[string]string) {
+	if m == nil || len(e.writes) == 0 || len(e.stack) == 0 {
+		return
+	}
+	var hp *ssa.Package
+	for _, f := range e.stack {
+		if strings.HasPrefix(f.Name(), "VH_") {
+			hp = f.Pkg
+			break
+		}
+	}
+	seen := map[string]bool{}
+	var names []string
+	for _, w := range e.writes {
+		if g := w.obj.Global; g != nil && g.Pkg == hp && !seen[g.Name()] && !strings.Contains(g.Name(), "$") {
+			seen[g.Name()] = true
+			names = append(names, g.Name())
+		}
+	}
+	if len(names) > 0 {
+		m["_written_globals"] = strings.Join(names, ",")
+	}
 }
